@@ -21,6 +21,8 @@ type lworld struct {
 	inv    []invocation
 	act    lAction
 	nextID int
+	// unjudged: a scripted step could not be carried out as scripted (see FailFirst)
+	unjudged bool
 }
 
 type invocation struct {
@@ -35,6 +37,14 @@ type lAction struct {
 	Body tq.EncoderDecoder // reply body (when Reply)
 	// Write, when set, makes the handler build its own packet and send it with Response.Write.
 	Write func(req tq.Request) *tq.Packet
+	// FailFirst: the handler first calls Reply this many times with a body that cannot be encoded (nothing is written,
+	// Reply returns an error) and then falls back to Body, as the reference authorizer does for unencodable values.
+	FailFirst int
+}
+
+// unencodable is a reply body whose MarshalBinary fails validation (an argument shorter than two octets).
+func unencodable() tq.EncoderDecoder {
+	return tq.NewAuthorReply(tq.SetAuthorReplyStatus(tq.AuthorStatusPassAdd), tq.SetAuthorReplyArgs("x"))
 }
 
 type scripted struct {
@@ -61,6 +71,15 @@ func (h *scripted) Handle(resp tq.Response, req tq.Request) {
 		return
 	}
 	if act.Reply {
+		for i := 0; i < act.FailFirst; i++ {
+			if _, err := resp.Reply(unencodable()); err == nil {
+				// the body was encoded after all (another property's business): this step cannot be judged
+				w.mu.Lock()
+				w.unjudged = true
+				w.mu.Unlock()
+				return
+			}
+		}
 		resp.Reply(act.Body)
 	}
 }
@@ -76,6 +95,7 @@ func (w *lworld) reset() {
 	w.mu.Lock()
 	w.inv = nil
 	w.nextID = 1
+	w.unjudged = false
 	w.mu.Unlock()
 }
 
